@@ -151,12 +151,11 @@ func (r *armoredReader) Read(p []byte) (int, error) {
 	if len(line) > format.ColumnsPerLine {
 		return 0, r.setErr(errors.New("column limit exceeded"))
 	}
-	r.unread = r.buf[:]
-	n, err := base64.StdEncoding.Strict().Decode(r.unread, line)
+	n, err := base64.StdEncoding.Strict().Decode(r.buf[:], line)
 	if err != nil {
 		return 0, r.setErr(err)
 	}
-	r.unread = r.unread[:n]
+	r.unread = r.buf[:n]
 
 	if n < format.BytesPerLine {
 		line, err := getLine()
